@@ -8,7 +8,7 @@ Steps (all in a scratch git worktree of /repo under /tmp, removed afterwards):
   4. related test directories: the set of passing tests must not shrink vs the clean tree;
   5. the registered checks of the property are run against the patched copy (VERIF_REPO) -> caught/missed.
 Writes patch.diff, demo.py, notes.md, meta.json."""
-import json, os, shutil, subprocess, sys, tempfile, time, xml.etree.ElementTree as ET
+import json, os, re, shutil, subprocess, sys, tempfile, time, xml.etree.ElementTree as ET
 
 VERIF = os.path.dirname(os.path.dirname(os.path.abspath(__file__)))
 CACHE = "/tmp/sv_cache"
@@ -28,7 +28,7 @@ def test_passes(wt, tdir, tag):
     if os.path.exists(junit):
         for tc in ET.parse(junit).getroot().iter("testcase"):
             if not any(ch.tag in ("failure", "error", "skipped") for ch in tc):
-                passed.add("%s::%s" % (tc.get("classname"), tc.get("name")))
+                passed.add(re.sub(r"0x[0-9a-f]+", "0x", "%s::%s" % (tc.get("classname"), tc.get("name"))))
         os.remove(junit)
     return passed
 
